@@ -117,6 +117,14 @@ func (c *fn) withJoinF(n ast.Node, assigned []types.Object, k kont, force bool, 
 		args = []string{"tt"}
 	}
 	nl, nlo, nlf, nf := c.nloops, len(c.localOrder), len(c.lifted), c.nfresh
+	usedSaved2 := map[string]bool{}
+	for k, v := range c.used {
+		usedSaved2[k] = v
+	}
+	namesSaved2 := map[types.Object]string{}
+	for k, v := range c.names {
+		namesSaved2[k] = v
+	}
 	kbody := c.scoped(func() string {
 		for _, o := range assigned {
 			delete(c.views, o)
@@ -141,6 +149,7 @@ func (c *fn) withJoinF(n ast.Node, assigned []types.Object, k kont, force bool, 
 			delete(c.localTypes, x)
 		}
 		c.localOrder, c.nloops, c.lifted, c.nfresh = c.localOrder[:nlo], nl, c.lifted[:nlf], nf
+		c.used, c.names = usedSaved2, namesSaved2
 		// the uses collapsed (e.g. branches that only log): inline after all
 		return body(k)
 	}
